@@ -901,6 +901,9 @@ func minInt(a, b int) int {
 
 var bigKinds = []string{"CCFB", "XR", "SDES", "SR", "RR", "FIR", "TWCC", "RAW"}
 
+// quickTier: set by genOps; bounds the few generated values on which the model takes minutes
+var quickTier bool
+
 func genBig(r *Rng, kind string) rtcp.Packet {
 	switch kind {
 	case "CCFB":
@@ -967,6 +970,9 @@ func genBig(r *Rng, kind string) rtcp.Packet {
 		t := &rtcp.TransportLayerCC{SenderSSRC: uint32(r.Bits(32, 32)), MediaSSRC: uint32(r.Bits(32, 32)),
 			BaseSequenceNumber: uint16(r.Bits(16, 16)), ReferenceTime: uint32(r.Bits(24, 24)), FbPktCount: uint8(r.Bits(8, 8))}
 		count := r.Pick(2037, 4076, 5000, 20000, 32000, 60000)
+		if quickTier && count > 20000 { // the model's TWCC functions are quadratic in the status count (2 min at 60000)
+			count = r.Pick(8191, 8192, 12000)
+		}
 		dtype := uint16(1)
 		if count <= 20000 && r.Bool() {
 			dtype = 2
